@@ -176,6 +176,13 @@ def run_case(case):
     scal = case["scal"] if (case["layout"] != "rgb" and np.dtype(stored).kind in "iu") else None
     if scal:
         img.header.set_slope_inter(*scal)
+    unit = None
+    if case["aseed"] % 3 == 0:
+        # the header declares a spatial unit; whatever convention the tool follows for it
+        # (the documented one: coordinates are millimetres), it must follow it for the
+        # resolution AND for the transform alike
+        unit = ["micron", "meter", "mm", "unknown"][case["aseed"] // 3 % 4]
+        img.header.set_xyzt_units(xyz=unit)
     top = tempfile.mkdtemp(prefix="c16-")
     obs = {"infos": 0, "voxels_checked": 0, "vias": {case["via"]: 1},
            "akinds": {case["akind"]: 1}, "imperfect_status": 0, "sharding_valid": 0,
@@ -278,10 +285,18 @@ def run_case(case):
         # resolution
         vs = np.linalg.norm(Aff[:3, :3], axis=0)
         res = np.array(sc["resolution"], dtype=float)
-        if not np.allclose(res, vs * 1e6, rtol=1e-9, atol=0):
+        U = 1e6
+        cands = [1e6] + ([{"micron": 1e3, "meter": 1e9}[unit]] if unit in ("micron", "meter")
+                         else [])
+        if unit:
+            obs["headers_declaring_a_spatial_unit"] = 1
+        match = [u for u in cands if np.allclose(res, vs * u, rtol=1e-9, atol=0)]
+        if not match:
             v.append({"kind": "resolution-is-not-the-voxel-size",
                       "detail": f"{ctx}: resolution {res.tolist()} vs voxel size "
-                      f"{(vs * 1e6).tolist()} nm"})
+                      f"{(vs * 1e6).tolist()} nm (header unit {unit})"})
+        else:
+            U = match[0]
         # transform relation
         T = np.array(jt, dtype=float)
         if T.shape != (4, 4) or not np.array_equal(T[3], [0, 0, 0, 1]):
@@ -289,14 +304,14 @@ def run_case(case):
         else:
             if np.linalg.det(Aff[:3, :3]) < 0:
                 obs["negative_det"] = 1
-            extent = (np.abs(Aff[:3, :3]) @ np.array(shape, dtype=float)).max() * 1e6 \
-                + np.abs(Aff[:3, 3]).max() * 1e6
+            extent = (np.abs(Aff[:3, :3]) @ np.array(shape, dtype=float)).max() * U \
+                + np.abs(Aff[:3, 3]).max() * U
             rnd = random.Random(case["aseed"])
             idxs = [[0, 0, 0], [s - 1 for s in shape]] + [
                 [rnd.randint(0, s - 1) for s in shape] for _ in range(4)]
             for i in idxs:
                 i = np.array(i, dtype=float)
-                phys = (Aff @ np.append(i, 1.0))[:3] * 1e6
+                phys = (Aff @ np.append(i, 1.0))[:3] * U
                 ng = (T @ np.append((i + 0.5) * res, 1.0))[:3]
                 err = np.abs(phys - ng).max() / extent
                 obs["voxels_checked"] += 1
@@ -329,6 +344,43 @@ def run_case(case):
             obs["sharding_valid"] = 1
         elif not sharding and "sharding" in sc:
             v.append({"kind": "unexpected-sharding-block", "detail": ctx})
+        # ---- the same destination asked to describe ANOTHER image (corrected header):
+        # refused with both files left as they are, or both files describe the new image -
+        # never the description of one image next to the transform of the other
+        if case["via"] == "cli" and not v and case["aseed"] % 2 == 0:
+            A2 = np.array(Aff)
+            A2[:3, :3] *= 2.0
+            A2[:3, 3] += 7.0
+            fn2 = os.path.join(top, "v2.nii")
+            nibabel.save(nibabel.Nifti1Image(arr, A2, header=img.header), fn2)
+            Aff2 = np.array(nibabel.load(fn2).affine, dtype=float)
+            try:
+                st2 = v2p.main([fn2 if a == fn else a for a in argv])
+            except SystemExit as exc:
+                st2 = exc.code
+            except Exception as exc:  # noqa: BLE001
+                st2 = type(exc).__name__
+            obs["second_description_into_the_same_directory"] = 1
+            with open(os.path.join(dest, "info_fullres.json")) as f:
+                info_b = json.load(f)
+            with open(os.path.join(dest, "transform.json")) as f:
+                jt_b = json.load(f)
+            res_b = np.array(info_b["scales"][0]["resolution"], dtype=float)
+            new_res = np.allclose(res_b, np.linalg.norm(Aff2[:3, :3], axis=0) * U, rtol=1e-9)
+            Tb = np.array(jt_b, dtype=float)
+            centre = (Tb @ np.append(0.5 * res_b, 1.0))[:3]
+            new_t = np.allclose(centre, Aff2[:3, 3] * U, rtol=1e-7, atol=1e-6 * U)
+            old_res = info_b == info
+            old_t = jt_b == jt
+            if st2 in (0, 4, None):
+                ok2 = new_res and new_t
+            else:
+                ok2 = old_res and old_t
+            if not ok2:
+                v.append({"kind": "description-and-transform-of-different-images",
+                          "detail": f"{ctx}: second --generate-info ended with {st2!r}; "
+                          f"info_fullres.json describes the {'new' if new_res else 'old' if old_res else '?'} "
+                          f"image, transform.json the {'new' if new_t else 'old' if old_t else '?'} one"})
     finally:
         shutil.rmtree(top, ignore_errors=True)
     wre = obs.pop("worst_rel_err_e16")
